@@ -9,6 +9,7 @@ import (
 	"path/filepath"
 	"time"
 
+	"github.com/mit-pdos/go-journal/vrt"
 	"verif/checks"
 	"verif/par"
 	"verif/report"
@@ -23,6 +24,9 @@ func main() {
 	checks.Root = filepath.Dir(filepath.Dir(filepath.Dir(exe)))
 	if r := os.Getenv("VERIF_ROOT"); r != "" {
 		checks.Root = r
+	}
+	if os.Getenv("VERIF_SITES") != "" {
+		vrt.RecordSites = true
 	}
 	switch os.Args[1] {
 	case "-worker":
